@@ -23,6 +23,8 @@ use std::panic::AssertUnwindSafe;
 use std::path::{Path, PathBuf};
 
 mod sinks;
+mod uninames;
+mod links;
 #[path = "../../c03/src/htmlbytes.rs"] mod htmlbytes;
 
 const TAG: u64 = 0xC18;
@@ -73,7 +75,9 @@ fn gen_pieces(rng: &mut Rng, pieces: u64) -> String {
             0..=34 => s.push_str(pick_str(rng, META)),
             35..=59 => s.push_str(pick_str(rng, FRAGS)),
             60..=79 => s.push_str(&alnum(rng)),
-            _ => s.push_str(pick_str(rng, NONASCII)),
+            80..=91 => s.push_str(pick_str(rng, NONASCII)),
+            // combining marks, ZWJ sequences, variation selectors, format characters, private use
+            _ => s.push_str(pick_str(rng, uninames::UNIHARD)),
         }
     }
     s
@@ -1797,7 +1801,8 @@ pub fn run(rep: &mut Report) {
     let mut rng = Rng::new(rep.seed ^ TAG);
     rep.rule = "strings are concatenations of XML/HTML/JSON metacharacters, hostile fragments (]]>, &amp;, \
                 <script>, \"/>, \\u0022, template syntax), alphanumeric runs and non-ASCII characters (1-4 byte \
-                UTF-8), lengths 0 to ~90 kB; esc: one string through every real escape routine and the model \
+                UTF-8; among them combining marks, ZWJ sequences, variation selectors, format and private-use \
+                characters), lengths 0 to ~90 kB; esc: one string through every real escape routine and the model \
                 (non-trivial = contains a character some table escapes); dec: escaped strings, half of them \
                 broken by inserted entity / escape fragments (non-trivial = broken); report: 1-4 files in 1-3 \
                 hostile directories with hostile function names and source lines through the five real writers, \
@@ -1814,9 +1819,13 @@ pub fn run(rep: &mut Report) {
     esc_stream(rep, &mut r1);
     dec_stream(rep, &mut r2);
     report_stream(rep, &mut r3);
+    let mut r5 = rng.fork();
     sinks::xmlread_stream(rep, &mut r4);
     sinks::observe_prefix_separator(rep);
     htmlbytes::run(rep);
+    uninames::run(rep, &mut r5);
+    let mut r6 = rng.fork();
+    links::run(rep, &mut r6);
     rep.notes.push("the quantifier excludes control characters: the esc/dec streams include them (the routines are total), the report stream does not".into());
 }
 
@@ -1874,6 +1883,10 @@ pub fn replay(rep: &mut Report, case: &Value) {
             }
         }
         "xmlread" => sinks::replay_xmlread(rep, case),
+        "uni.json" => {
+            uninames::replay(rep, case);
+        }
+        "links" => links::replay(rep, case),
         o if o.starts_with("c03.htmlb.") => htmlbytes::replay(rep, case),
         _ => rep.notes.push("unknown op in replay case".into()),
     }
